@@ -483,6 +483,23 @@ def build_project(fmt: str, shape: str, variant: int, layout: Dict[str, Any], k:
     return {s_.rel: s_.text() for s_ in srcs}, planted
 
 
+def field_and_own_docstring_case(fmt: str) -> Dict[str, Any]:
+    """Corpus: an attribute documented BOTH by a field of the class docstring and by a docstring of its own; the field body
+    holds an unresolvable reference.  The report must name the field's line in the class docstring (known finding: it names
+    own-docstring line + field offset)."""
+    ep = fmt == 'epytext'
+    link, fld = ('L{nosuchF}', '@ivar x: the x, see %s.') if ep else ('`nosuchF`', ':ivar x: the x, see %s.')
+    lines = ['"""A module."""', '', 'class D:', '    """', '    A class.', '', '    More text.', '', '    ' + fld % link, '    """',
+             '    def __init__(self):', '        self.x = 1', '        """', '        Own docstring of x.', '        """', '',
+             'class E:', '    """', '    Another class.', '', '    ' + (fld % ('L{nosuchG}' if ep else '`nosuchG`')).replace(' x:', ' y:'), '    """']
+    planted = [{'file': '@ROOT@/pkg/__init__.py', 'msg': 'Cannot find link target for "nosuchF"', 'problem': 'xref', 'rule': 'once',
+                'first': 9, 'prob': 9, 'n0': 4, 'end': 10, 'alt_line': 14 + 4},      # own docstring content line + the field's cleaned line
+               {'file': '@ROOT@/pkg/__init__.py', 'msg': 'Cannot find link target for "nosuchG"', 'problem': 'xref', 'rule': 'once',
+                'first': 21, 'prob': 21, 'n0': 18, 'end': 22}]
+    return {'project': True, 'fmt': fmt, 'shape': 'field_and_own_docstring', 'variant': 0, 'layout': LAYOUT_BELOW, 'k': 0, 'quiet': True,
+            'projects': [{'pkg/__init__.py': '\n'.join(lines) + '\n'}], 'planted': [planted]}
+
+
 def make_project_case(fmt: str, shape: str, variant: int, layout: Dict[str, Any], k: int, quiet: bool = True) -> Dict[str, Any]:
     projects, planted = [], []
     for kk in ([0] if k == 0 else [0, k]):
@@ -1198,6 +1215,8 @@ class Check(PropertyCheck):
                 for lay in (LAYOUT_BELOW, LAYOUT_OPEN):
                     v += 1
                     cases.append(make_project_case(fmt, shape, v, lay, k=(0 if v % 2 else 3)))
+        cases.append(field_and_own_docstring_case('epytext'))
+        cases.append(field_and_own_docstring_case('restructuredtext'))
         for _ in range(n_random):
             cases.append(make_project_case(rng.choice(FMTS), rng.choice(['reexport', 'inherit']), rng.randrange(1000),
                                            rng.choice([LAYOUT_BELOW, LAYOUT_OPEN]), k=rng.choice([0, 1, 4, 9]), quiet=rng.random() < 0.8))
@@ -1292,6 +1311,13 @@ class Check(PropertyCheck):
         cleandoc computes; the reported line / docstring origin is then too large by exactly ws_excess(value)."""
         c = v.case
         if not isinstance(c, dict):
+            return None
+        if v.kind == 'oracle' and c.get('shape') == 'field_and_own_docstring' and isinstance(v.observed, list) and len(v.observed) == 2:
+            for p in c['planted'][0]:
+                if 'alt_line' in p and v.observed == [p['file'], str(p['alt_line'])] and p['msg'][:30] in v.what:
+                    for k in known:
+                        if k.get('match', {}).get('condition') == 'field_and_own_docstring':
+                            return k
             return None
         if v.kind == 'oracle' and 'value' in c and 'sources' in c and 'reported line' in v.what:
             # subtract what the two known defects add; what remains must satisfy the property
